@@ -25,8 +25,8 @@ WHAT IS PROVED
   file (`OK = False`): repadLine for TAB / COMMA (for text cells the padding stays inside the cell text: known finding
   dlm-pad-text) and redelim.  For NUMERIC cells both are proved in `Props/C09Redelim.lean`: line, typed-column and window level
   for every pair of delimiters (`C09_redelim_*`), the whole-file statement for repadLine with TAB / COMMA
-  (`C09_repad_delimited_file`, the conclusion of `C09_step`), and the whole-file statement for redelim up to the header facts
-  about the changed DLM item (`C09_redelim_file_of_header`).
+  (`C09_repad_delimited_file`, the conclusion of `C09_step`); the whole-file statement for redelim is in
+  `Props/C09RedelimFile.lean` (`C09_redelim_file_replace`, `C09_redelim_file_insert`: ~Version first, one data section).
 * hypotheses   `TildeNotFloat ft` (float() rejects tokens starting with '~'), base readable, and — only when the numpy engine is
                in effect — the two engines agree on every data section of the base (`AgreeAlone`; `C09_agree_of_plain`: true of
                every PlainData section, C02).  Counter-examples: `C09_agree_needed` (mid-line '#'), `C09_quote_needed`,
